@@ -1,6 +1,6 @@
 (* Extract/ExtractC16.v — extraction of the glyf outline model for the C16 correspondence.
    ExtrOcamlBasic only; Z, positive, nat, Q stay Coq's inductives.  Depends on Model/Gen only. *)
-From AV Require Import Base.Prelude Gen.GlyfConsts Model.GlyfSpec Model.GlyfOutline.
+From AV Require Import Base.Prelude Gen.GlyfConsts Gen.LocaConsts Model.GlyfSpec Model.GlyfOutline Model.GlyfLoca.
 From Coq Require Import QArith.
 Require Import ExtrOcamlBasic.
 Extraction Language OCaml.
@@ -16,4 +16,5 @@ Extraction "../ocaml/c16/model.ml"
   z_add z_mul z_opp z_div_eucl z_ltb z_eqb
   visit visit_insts visit_bounds render comp_xform x_apply half get_parsed_glyph table_load
   contours expand contour_paths path_of_rotation rotl
-  encode_points encoding_legal spec_transform spec_xform supported x_abs.
+  encode_points encoding_legal spec_transform spec_xform supported x_abs
+  glyf_table visit_glyf loca_offsets.
